@@ -31,16 +31,21 @@ var instKinds = []instKind{
 type instPath struct {
 	name string
 	src  string
-	cls  bool // needs a class (static factory)
+	cls  bool   // needs a class (static factory)
+	pre  string // declared once before the attempts
 }
 
+// attempts: every instantiation is tried this many times in the same script, each in its own
+// try: a rejection must not depend on having been the first attempt.
+const attempts = 3
+
 var instPaths = []instPath{
-	{"new", "$r = new {X}();", false},
-	{"new-noparens", "$r = new {X};", false},
-	{"new-dynamic", "$n = \"{X}\"; $r = new $n();", false},
-	{"new-static", "$r = {X}::mk();", true},
-	{"new-self", "$r = {X}::mks();", true},
-	{"new-in-function", "function mkx() { return new {X}(); } $r = mkx();", false},
+	{"new", "$r = new {X}();", false, ""},
+	{"new-noparens", "$r = new {X};", false, ""},
+	{"new-dynamic", "$n = \"{X}\"; $r = new $n();", false, ""},
+	{"new-static", "$r = {X}::mk();", true, ""},
+	{"new-self", "$r = {X}::mks();", true, ""},
+	{"new-in-function", "$r = mkx();", false, "function mkx() { return new {X}(); }"},
 }
 
 func instScript(k instKind, p instPath, x string, bare bool) string {
@@ -48,10 +53,15 @@ func instScript(k instKind, p instPath, x string, bare bool) string {
 	var sb strings.Builder
 	sb.WriteString(prelude)
 	sb.WriteString(rep(k.decl) + "\n")
+	if p.pre != "" {
+		sb.WriteString(rep(p.pre) + "\n")
+	}
 	if bare {
 		fmt.Fprintf(&sb, "echo \"@@0@@\"; %s echo \"~R~ok|\", sh($r);\n", rep(p.src))
 	} else {
-		fmt.Fprintf(&sb, "$r = null; echo \"@@0@@\"; try { %s echo \"~R~ok|\", sh($r); } catch (Throwable $e) { echo \"~R~denied|\", get_class($e), \"|\", $e->getMessage(); }\n", rep(p.src))
+		for a := 0; a < attempts; a++ {
+			fmt.Fprintf(&sb, "$r = null; echo \"@@%d@@\"; try { %s echo \"~R~ok|\", sh($r); } catch (Throwable $e) { echo \"~R~denied|\", get_class($e), \"|\", $e->getMessage(); }\n", a, rep(p.src))
+		}
 	}
 	sb.WriteString("echo \"@@END@@\";\n")
 	return sb.String()
@@ -151,9 +161,11 @@ func chainScript(c chainCfg, pfx string, only string, bare bool) string {
 		}
 		body := fmt.Sprintf("$o = new %s(); echo \"<inst>\"; $r = $o->m1() . \",\" . $o->m2();", cls)
 		if bare {
-			fmt.Fprintf(&sb, "echo \"@@%d@@\"; %s echo \"~R~ok|\", sh($r);\n", i, body)
+			fmt.Fprintf(&sb, "echo \"@@%d@@\"; %s echo \"~R~ok|\", sh($r);\n", i*10, body)
 		} else {
-			fmt.Fprintf(&sb, "$r = null; echo \"@@%d@@\"; try { %s echo \"~R~ok|\", sh($r); } catch (Throwable $e) { echo \"~R~denied|\", get_class($e), \"|\", $e->getMessage(); }\n", i, body)
+			for a := 0; a < attempts; a++ {
+				fmt.Fprintf(&sb, "$r = null; echo \"@@%d@@\"; try { %s echo \"~R~ok|\", sh($r); } catch (Throwable $e) { echo \"~R~denied|\", get_class($e), \"|\", $e->getMessage(); }\n", i*10+a, body)
+			}
 		}
 	}
 	sb.WriteString("echo \"@@END@@\";\n")
